@@ -1,6 +1,7 @@
 import HdVerif.Model.Bits
 import HdVerif.Model.FrameAccess
 import HdVerif.Generated.T20
+import HdVerif.Generated.T8
 /-! # C01 model: `Segmentation.__init__` (encode side) and reading back by source image
 
 Mirrors, statement by statement, `seg/sop.py`:
@@ -346,12 +347,16 @@ structure SegObj where
   pd : PixelData
   deriving Repr, Inhabited
 
-/-- BitsAllocated: 1 / 8 / `_get_unsigned_dtype(max segment number)` -/
+/-- BitsAllocated: 1 / 8 / the width of the *translated* `_get_unsigned_dtype(max segment number)` (T8);
+    "Too many segments to represent with a 16 bit integer" when that is uint32 -/
 def bitsFor (t : SegType) (segs : List Nat) : Except ErrKind Nat :=
   match t with
   | .binary => .ok 1
   | .fractional => .ok 8
-  | .labelmap => if listMax segs < 256 then .ok 8 else if listMax segs < 65536 then .ok 16 else .error .value
+  | .labelmap =>
+    match unsignedDtype (listMax segs) with
+    | .error e => .error e
+    | .ok b => if b = 32 then .error .value else if b < 0 then .error .other else .ok b.toNat
 
 def encodePixelData (codec : Option Codec) (rows cols bits : Nat) (frames : List (List Nat)) :
     Except ErrKind PixelData :=
